@@ -21,6 +21,12 @@ claims={
         "QE report vs signed QE Identity: masked MISCSELECT and ATTRIBUTES, MRSIGNER, ISVPRODID, first-match level with isvsvn <= ISVSVN, UpToDate; status decoder accepts exactly the declared statuses; decoded collateral reaches only read-only library functions."),
  "C12":("gate-set inclusion across option partitions + reachable call-site enumeration on the pruned inlined call tree + who-may-write on Options + package-state rule",
         "Sufficient condition for monotonicity (gate-set inclusion), fetch gating per option assignment with URL/getter provenance, CA selection, URL builder formats, and absence of history: only unexported per-call fields of the caller's Options are stored (each before its first reader) and no package-level mutable state is touched. The store of options.Now is reported as a known finding."),
+ "C17":("dominating argument gates + who-receives-the-client enumeration + provenance of the digest term",
+        "Index/digest/algorithm/empty-log gates dominate the single call that receives the TSM client, which gets the caller's index and digest (or Sum(nil) of a fresh hash fed exactly the event log) unmodified. The history clause (entry re-use, extend chain) is inside go-configfs-tsm and is not decided."),
+ "C18":("must-pass-through gates with operand provenance + loop structure of the bank builder",
+        "A nil-error return of ParseCcelWithTdQuote implies both gates on the same quote and returns ReplayAndExtract's result for a bank holding every RTMR of the quote at its own index; error returns carry no state; default options bind REPORT_DATA to the nonce."),
+ "C20":("CFG/dominance structure of the retry loop + min-shape and loop-carried-value rules on SSA",
+        "First success returned intact from the single attempt site that dominates every return; every retry passes a blocking select with a capped, loop-carried timer and a once-created deadline context whose case returns an error; default configuration. Elapsed-time bounds are not decided."),
 }
 na={"C11":"acceptance of every honest quote is an existential, value-dependent completeness property; no structural necessary condition of it is both statically checkable and sensitive to realistic over-strict changes (DESIGN.md section 4/C11)"}
 setup="cd /verif/checker && GOFLAGS=-mod=mod GOPROXY=off GOSUMDB=off GOTOOLCHAIN=local GOWORK=off go build -o /verif/bin/tdxlint ./cmd/tdxlint"
